@@ -22,12 +22,12 @@ void pthread_env_reset (void)
 	g_m_hdl, g_c_hdl, g_cwait_mutex, g_pt_rc
 
 #define PT_RET (g_pt_calls++, g_pt_rc = nondet_int (), g_pt_rc)
-int pthread_mutex_init (pthread_mutex_t *m, const pthread_mutexattr_t *a) { g_minit++; g_m_hdl = m; return PT_RET; }
+int pthread_mutex_init (pthread_mutex_t *m, const pthread_mutexattr_t *a) { ENV_REQ (a == NULL, "pthread_mutex_init: default attributes (a plain, non-recursive mutex: a condition wait releases the caller's one and only hold)"); g_minit++; g_m_hdl = m; return PT_RET; }
 int pthread_mutex_lock (pthread_mutex_t *m)     { g_mlock++; g_m_hdl = m; return PT_RET; }
 int pthread_mutex_trylock (pthread_mutex_t *m)  { g_mtrylock++; g_m_hdl = m; return PT_RET; }
 int pthread_mutex_unlock (pthread_mutex_t *m)   { g_munlock++; g_m_hdl = m; return PT_RET; }
 int pthread_mutex_destroy (pthread_mutex_t *m)  { g_mdestroy++; g_m_hdl = m; return PT_RET; }
-int pthread_cond_init (pthread_cond_t *c, const pthread_condattr_t *a) { g_cinit++; g_c_hdl = c; return PT_RET; }
+int pthread_cond_init (pthread_cond_t *c, const pthread_condattr_t *a) { ENV_REQ (a == NULL, "pthread_cond_init: default attributes"); g_cinit++; g_c_hdl = c; return PT_RET; }
 int pthread_cond_wait (pthread_cond_t *c, pthread_mutex_t *m) { g_cwait++; g_c_hdl = c; g_cwait_mutex = m; return PT_RET; }
 int pthread_cond_signal (pthread_cond_t *c)     { g_csignal++; g_c_hdl = c; return PT_RET; }
 int pthread_cond_broadcast (pthread_cond_t *c)  { g_cbroadcast++; g_c_hdl = c; return PT_RET; }
@@ -39,7 +39,7 @@ unsigned g_rw_calls, g_rwinit, g_rdlock, g_wrlock, g_tryrd, g_trywr, g_rwunlock,
 #define RW_INIT (g_rw_calls == 0 && g_rwinit == 0 && g_rdlock == 0 && g_wrlock == 0 && g_tryrd == 0 && g_trywr == 0 && g_rwunlock == 0 && g_rwdestroy == 0)
 #define RW_GHOSTS g_rw_calls, g_rwinit, g_rdlock, g_wrlock, g_tryrd, g_trywr, g_rwunlock, g_rwdestroy, g_rw_hdl, g_rw_rc
 #define RW_RET (g_rw_calls++, g_rw_rc = nondet_int (), g_rw_rc)
-int pthread_rwlock_init (pthread_rwlock_t *l, const pthread_rwlockattr_t *a) { g_rwinit++; g_rw_hdl = l; return RW_RET; }
+int pthread_rwlock_init (pthread_rwlock_t *l, const pthread_rwlockattr_t *a) { ENV_REQ (a == NULL, "pthread_rwlock_init: default attributes"); g_rwinit++; g_rw_hdl = l; return RW_RET; }
 int pthread_rwlock_rdlock (pthread_rwlock_t *l)    { g_rdlock++; g_rw_hdl = l; return RW_RET; }
 int pthread_rwlock_wrlock (pthread_rwlock_t *l)    { g_wrlock++; g_rw_hdl = l; return RW_RET; }
 int pthread_rwlock_tryrdlock (pthread_rwlock_t *l) { g_tryrd++; g_rw_hdl = l; return RW_RET; }
